@@ -66,7 +66,7 @@ fn case_run(src: &mut Src, st: &mut Stats, _env: &Env) -> CaseResult {
             let a = gen_sentence(src, st, 2).unwrap_or_else(|| "a".into());
             mutate(&a, "b", src).0
         }
-        5 => src.pick(&["nope(@)", "abs('x')", "nums[::0]", "length(@)", "sum(strs)", "-1", "-", "--ast", "-u", "\"é\".\"日本\"", "'😀'", "s", "strs[0]", "objs[*].s | [0]", "@", "to_string(@)", "keys(@)"]).to_string(),
+        5 => src.pick(&["&s", "not_null(z, &s)", "[&s]", "s || &s", "nope(@)", "abs('x')", "nums[::0]", "length(@)", "sum(strs)", "-1", "-", "--ast", "-u", "\"é\".\"日本\"", "'😀'", "s", "strs[0]", "objs[*].s | [0]", "@", "to_string(@)", "keys(@)"]).to_string(),
         6 => src.pick(&["s", "s2", "strs[-1]", "objs[0].s", "join('\n', strs)", "to_string(nums)", "type(@)"]).to_string(),
         _ => "@".to_string(),
     };
@@ -122,7 +122,12 @@ fn case_run(src: &mut Src, st: &mut Stats, _env: &Env) -> CaseResult {
         args.push("--ast".into());
     }
     let mut input_file: Option<PathBuf> = None;
-    if input_via_file {
+    // sometimes the "file" is not a regular file: /dev/stdin carries the input
+    let via_dev_stdin = input_via_file && !missing_input_file && src.chance(50);
+    if via_dev_stdin {
+        args.push("-f".into());
+        args.push("/dev/stdin".into());
+    } else if input_via_file {
         let p = dir.join(format!("in-{}.json", tid));
         if missing_input_file {
             let _ = std::fs::remove_file(&p);
@@ -147,7 +152,7 @@ fn case_run(src: &mut Src, st: &mut Stats, _env: &Env) -> CaseResult {
         args.push(expr.clone());
     }
     st.eval();
-    let stdin_bytes: &[u8] = if input_via_file { b"" } else { &input };
+    let stdin_bytes: &[u8] = if input_via_file && !via_dev_stdin { b"" } else { &input };
     let run = run_jp(&jp, &args, stdin_bytes).map_err(|m| Failure::new("runs", "harness-spawn", m, json!({"args": args})))?;
     let case = json!({"args": args, "expression": expr, "input": String::from_utf8_lossy(&input), "stdout": String::from_utf8_lossy(&run.stdout), "stderr": String::from_utf8_lossy(&run.stderr), "exit": run.code});
     let _ = input_file;
